@@ -21,6 +21,11 @@ CONSTANTS Dim,               \* 1 | 2
           C0, Sp0,           \* input channels / spatial size
           AllowRelu, AllowPool, AllowAdd, AllowDw,
           AllowReuse,        \* may a conv / lin node invoke the layer object of an earlier node again
+          PMs, Ds, Ss, Biases, \* options of non-depthwise convs: padding modes, dilations, strides, bias on/off
+          Batches,           \* batch sizes of the tracing example (input_shape: 1; input_example: any)
+          Alphabet,          \* which calls the histories are made of: "classic" | "modes" | "export"
+          FwdImpl,           \* "plain" | "cache": (sanity) eval + no_grad forward passes that skip the weight sampler
+          ExpImpl,           \* "fresh" | "memo" : (sanity) export() memoised on the reported assignment
           TupMode,           \* which configurations: "one" | "pairs" | "few" | "pc" | "pc1" | "ne16"
           WType,             \* "pl" | "pc"
           SelMode,           \* "all" | "rot" : every winner function / three rotations per configuration
@@ -35,13 +40,19 @@ VARIABLES arch, phase, gs, cfg, sel,
                    \*           MPS modules in training mode, i.e. soft) - nothing is claimed about the cost
                    \* "fresh" : theta is the arg-max one-hot of the CURRENT coefficients
                    \* "stale" : theta is a one-hot sampled earlier / with Gumbel noise
-          hist     \* calls made since the selection
+          hist,    \* calls made since the selection
+          env      \* [mode, cached, wver (weight version), snap (weight version inside the module the last export()
+                   \*  returned, -1: none), ekey (assignment at the last export), eat (weight version at the last export)]
 
-vars == <<arch, phase, gs, cfg, sel, smp, fresh, hist>>
+vars == <<arch, phase, gs, cfg, sel, smp, fresh, hist, env>>
+Env0 == [mode |-> "eval", cached |-> FALSE, wver |-> 0, snap |-> -1, ekey |-> <<>>, eat |-> 0]
 
 Node(op, ins, out, k, dw, bn, ru) ==
     [op |-> op, ins |-> ins, out |-> out, k |-> k, d |-> 1, s |-> 1, bias |-> TRUE, bn |-> bn,
-     dw |-> dw, excl |-> FALSE, causal |-> (Dim = 1 /\ op = "conv"), reuse |-> ru]
+     dw |-> dw, excl |-> FALSE, causal |-> (Dim = 1 /\ op = "conv"), reuse |-> ru, pm |-> "zeros"]
+\* a non-depthwise conv with options (1-D: causal convs are left-padded with zeros whatever the mode)
+ConvNode(p, w, k, b, pm, d, st, bi) ==
+    [Node("conv", <<p>>, w, k, FALSE, b, 0) EXCEPT !.pm = IF Dim = 1 THEN "zeros" ELSE pm, !.d = d, !.s = st, !.bias = bi]
 
 NoCfg == [pin |-> <<>>, pa |-> <<>>, pw |-> <<>>, wt |-> WType]
 NoSel == [a |-> <<>>, w |-> <<>>]
@@ -51,7 +62,7 @@ Init == /\ arch = [dim |-> Dim, c0 |-> C0, sp |-> Sp0, nodes |-> <<>>]
         /\ phase = "grow"
         /\ gs = NoGS
         /\ cfg = NoCfg
-        /\ sel = NoSel /\ smp = NoSel /\ fresh = "soft" /\ hist = <<>>
+        /\ sel = NoSel /\ smp = NoSel /\ fresh = "soft" /\ hist = <<>> /\ env = Env0
 
 T(a)  == 0..N(a)
 NF(a) == {t \in T(a) : ~IsFlat(a, t)}
@@ -70,7 +81,10 @@ ReuseCands(a) ==
            m \in {x \in Layers(a) : Nd(a, x).reuse = 0}}
 
 Candidates(a) ==
-    {Node("conv", <<p>>, w, k, FALSE, b, 0) : p \in NF(a), w \in Widths, k \in Ks, b \in ConvBNs}
+    {nd \in {ConvNode(p, w, k, b, pm, d, st, bi) : p \in NF(a), w \in Widths, k \in Ks, b \in ConvBNs,
+                                                     pm \in PMs, d \in Ds, st \in Ss, bi \in Biases} :
+        \* PyTorch: reflect / replicate / circular padding needs an input larger than the padding d*(k div 2)
+        nd.pm = "zeros" \/ nd.d * (nd.k \div 2) < Sp(a, nd.ins[1])}
     \cup (IF AllowDw THEN {Node("conv", <<p>>, 0, 3, TRUE, b, 0) : p \in NF(a), b \in ConvBNs} ELSE {})
     \cup {Node("lin", <<p>>, w, 1, FALSE, b, 0) : p \in T(a) \ NF(a), w \in LinWidths, b \in BNs}
     \cup (IF AllowRelu THEN {Node("relu", <<p>>, 0, 1, FALSE, FALSE, 0) : p \in {t \in T(a) \ {0} : Op(a, t) # "relu"}} ELSE {})
@@ -81,7 +95,7 @@ Candidates(a) ==
 
 Grow == /\ phase = "grow" /\ N(arch) < MaxNodes
         /\ \E nd \in Candidates(arch) : arch' = [arch EXCEPT !.nodes = Append(@, nd)]
-        /\ UNCHANGED <<phase, gs, cfg, sel, smp, fresh, hist>>
+        /\ UNCHANGED <<phase, gs, cfg, sel, smp, fresh, hist, env>>
 
 Used(a, t) == \E n \in 1..N(a) : t \in SeqSet(Ins(a, n))
 Sealable(a) == /\ N(a) >= MinNodes /\ N(a) >= 1
@@ -125,7 +139,7 @@ Sels(g, a, c) ==
 Seal == /\ phase = "grow" /\ Sealable(arch)
         /\ gs' = GS(Walk, arch)
         /\ phase' = "sealed"
-        /\ UNCHANGED <<arch, cfg, sel, smp, fresh, hist>>
+        /\ UNCHANGED <<arch, cfg, sel, smp, fresh, hist, env>>
 
 \* Select = construct the model and WRITE the coefficients of the selection (theta is still the soft sample of
 \* the conversion); InvCostExact etc. describe the model after one forward pass in eval / hard mode
@@ -133,27 +147,46 @@ Select == /\ phase = "sealed"
           /\ (WType = "pc" => PcOk(gs, arch))
           /\ \E c \in Configs : \E s \in Sels(gs, arch, c) :
                 cfg' = c /\ sel' = s /\ smp' = s
-          /\ fresh' = "soft" /\ hist' = <<>>
+          /\ fresh' = "soft" /\ hist' = <<>> /\ env' = Env0
           /\ phase' = "sel"
           /\ UNCHANGED <<arch, gs>>
 
 (* ------------------------------ call histories --------------------------- *)
-(* fwd_eval  : forward pass in eval mode            -> theta = one-hot(arg-max alpha)                 *)
-(* fwd_hard  : training, hard_softmax, plain soft-max sampler -> the same                             *)
-(* fwd_ghard : training, hard Gumbel soft-max       -> theta = one-hot of ANY candidate (noise)       *)
-(* load      : load_state_dict / write of other coefficients, no forward -> theta unchanged (stale)   *)
-(* export, summary, upd (update_softmax_options(temperature)) : observers, theta unchanged            *)
-Acts == {"fwd_eval", "fwd_hard", "fwd_ghard", "load", "export", "summary", "upd"}
+(* The calls and what they do to the mode / to theta are defined in MPSLife (ModeAfter, ThetaAfter).  Here the   *)
+(* REFERENCE behaviour: a forward pass in eval / hard mode samples the arg-max of the current coefficients,      *)
+(* whatever the autograd mode; export() converts the CURRENT weights.  Two sanity variants (expected to fail):   *)
+(* FwdImpl = "cache": an eval forward under no_grad re-uses cached quantised weights and skips the weight        *)
+(* sampler until the next mode switch;  ExpImpl = "memo": export() returns the module converted earlier when the *)
+(* reported assignment did not change.                                                                           *)
+Acts == CASE Alphabet = "classic" -> {"fwd_eval", "fwd_hard", "fwd_ghard", "load", "export", "summary", "upd"}
+          [] Alphabet = "modes"   -> {"to_eval", "to_hard", "to_ghard", "fwd_g", "fwd_n", "load", "copy"}
+          [] Alphabet = "export"  -> {"fwd_n", "to_eval", "sgd_net", "sgd_all", "export", "load"}
+MaxW == 2
 Step(act) ==
     /\ phase = "sel" /\ Len(hist) < MaxHist
+    /\ (IsWeightStep(act) => env.wver < MaxW)
     /\ hist' = Append(hist, act)
-    /\ CASE act \in {"fwd_eval", "fwd_hard"} -> sel' = sel /\ smp' = sel /\ fresh' = "fresh"
-         [] act = "fwd_ghard" -> /\ sel' = sel /\ fresh' = "stale"
-                                 /\ \E k \in 0..2 : smp' = RotSel(gs, arch, cfg, k)
-         [] act = "load"      -> /\ fresh' = IF fresh = "soft" THEN "soft" ELSE "stale"
-                                 /\ \E k \in 0..2 : sel' = RotSel(gs, arch, cfg, k) /\ sel' # sel
-                                 /\ smp' = IF fresh = "soft" THEN sel' ELSE smp
-         [] OTHER             -> UNCHANGED <<sel, smp, fresh>>
+    /\ LET m1     == ModeAfter(act, env.mode)
+           switch == act \in {"to_eval", "to_hard", "to_ghard", "fwd_eval", "fwd_hard", "fwd_ghard", "sgd_net", "sgd_all"}
+           nograd == act \in {"fwd_n", "fwd_eval", "fwd_hard", "fwd_ghard"}
+           usecache == FwdImpl = "cache" /\ m1 = "eval" /\ nograd /\ env.cached /\ ~switch
+       IN
+       /\ fresh' = ThetaAfter(act, fresh, m1)
+       /\ IF IsAlphaWrite(act)
+          THEN \E k \in 0..2 : /\ sel' = RotSel(gs, arch, cfg, k) /\ sel' # sel
+                               /\ smp' = IF fresh = "soft" /\ act # "sgd_all" THEN sel' ELSE IF act = "sgd_all" THEN sel ELSE smp
+          ELSE /\ sel' = sel
+               /\ IF ~IsForward(act) THEN smp' = smp
+                  ELSE IF m1 = "ghard" THEN \E k \in 0..2 : smp' = RotSel(gs, arch, cfg, k)
+                  ELSE smp' = [a |-> sel.a, w |-> IF usecache THEN smp.w ELSE sel.w]
+       /\ env' = [mode   |-> m1,
+                  cached |-> IF switch /\ ~(m1 = "eval" /\ nograd) THEN FALSE
+                             ELSE IF m1 = "eval" /\ nograd THEN TRUE ELSE env.cached,
+                  wver   |-> IF IsWeightStep(act) THEN env.wver + 1 ELSE env.wver,
+                  snap   |-> IF act # "export" THEN env.snap
+                             ELSE IF ExpImpl = "memo" /\ env.snap >= 0 /\ env.ekey = sel THEN env.snap ELSE env.wver,
+                  ekey   |-> IF act = "export" THEN sel ELSE env.ekey,
+                  eat    |-> IF act = "export" THEN env.wver ELSE env.eat]
     /\ UNCHANGED <<arch, phase, gs, cfg>>
 
 Next == Grow \/ Seal \/ Select \/ \E act \in Acts : Step(act)
@@ -205,7 +238,23 @@ InvCostTheta == (Selected /\ MaxHist > 0 /\ fresh # "soft") => CostExactFor(smp)
 \* current coefficients (forward in eval or hard mode after the last coefficient write)
 InvFreshIsSummary == (Selected /\ fresh = "fresh") => smp = sel
 \* the state of theta is a function of the history alone (MPSLife!ThetaState, used by the trace spec)
-InvFreshDef == Selected => fresh = ThetaState(hist)
+InvFreshDef == Selected => fresh = ThetaState(hist) /\ env.mode = ModeOf(hist)
+                                 /\ env.wver = WeightVersion(hist, Len(hist) + 1)
+\* export() after k weight updates = the eval-mode model at that weight version: the module the LAST export()
+\* returned holds the weights that were current when it was called
+InvExportCurrent == (Selected /\ env.snap >= 0) => env.snap = env.eat
+\* the exported layer has the convolution options of the searched layer (padding mode, dilation, stride, bias):
+\* QuantConv*.__init__ copies them from the layer it is given (and forward must use them: observed, bit-identity)
+ExportedGeom(L) == Geom(arch, L)
+InvExportGeom == Selected => \A L \in Layers(arch) :
+                     /\ ExportedGeom(L).pm \in {"zeros", "reflect", "replicate", "circular"}
+                     /\ (Nd(arch, L).causal => ExportedGeom(L).pm = "zeros")
+                     /\ ExportedGeom(L) = Geom(arch, Owner(arch, L))
+\* the cost does not depend on the batch size of the tracing example: no cost function reads out_shape[0]
+InvBatchIndependent ==
+    Selected => \A L \in Layers(arch) : \A b \in Batches :
+        /\ OXShown(arch, L, OutShapeOf(arch, L, b)) = OOf(arch, L)
+        /\ OYShown(arch, L, OutShapeOf(arch, L, b)) = O2Of(arch, L)
 \* the cost function is shown the effective feature counts under the PyTorch names of the layer type
 InvSpecKeys ==
     Selected =>
